@@ -133,7 +133,8 @@ def run_shard(shard, tier, seed, wd, res):
                     for cflag in (True, False):
                         # the stream always holds enough bytes for either flag value
                         s.op("deser", V.s(ty), V.b(b + bytes(192)), V.t(cflag), V.n(rng.choice([0, 0, 1, 4])), V.n(-1))
-    H.monitor_script(__import__("props.c19", fromlist=["x"]), s.text(), BUILDS, wd, res, shard)
+    builds = BUILDS + (("asan",) if tier == "thorough" and shard["idx"] == 0 else ())
+    H.monitor_script(__import__("props.c19", fromlist=["x"]), s.text(), builds, wd, res, shard)
 
 
 def judge(ctx, rec, res):
